@@ -11,7 +11,7 @@ from ..cfg import cfg_of, own_exprs
 from ..report import norm_text
 from . import _layout, _pipe
 
-SIG_KINDS = ("autograd", "pack", "unpack", "aggregator_call", "grad_write", "create", "zip", "set_op", "expects_grad_check", "diag", "reshape")
+SIG_KINDS = ("autograd", "pack", "unpack", "aggregator_call", "grad_write", "create", "zip", "set_op", "diag", "reshape")  # validation of discovered leaves is vacuous: not compared
 
 
 def path_signature(res, rename: dict):
